@@ -197,10 +197,6 @@ Theorem C10_gen_layouts_ok :
   forallb (fun e => lay_ok (snd e) && (fst e <? 65536)) gen_layouts = true.
 Proof. vm_compute. reflexivity. Qed.
 
-Definition layout_eqb (a b : layout) : bool :=
-  if list_eq_dec (fun x y : fkind =>
-       ltac:(decide equality; try apply N.eq_dec; apply Nat.eq_dec)) a b then true else false.
-
 (* the generated layouts coincide with the hand-written ones of Model.v for
    every type both describe (all but the custom range, which the translator
    does not express) *)
